@@ -193,6 +193,14 @@ func (c *choiceTr) body(b *ast.BlockStmt) (mech, addr string, err error) {
 				return "", "", fmt.Errorf("unsupported assignment target at %s", c.pos(s))
 			}
 		case *ast.IfStmt:
+			if s.Init == nil && s.Else != nil { // else / else-if arms: normalise.go
+				a, err := c.choiceNestedIf(s, addr)
+				if err != nil {
+					return "", "", err
+				}
+				addr = a
+				continue
+			}
 			if s.Init != nil || s.Else != nil {
 				return "", "", fmt.Errorf("unsupported nested if at %s", c.pos(s))
 			}
